@@ -15,6 +15,7 @@ import json, os, re, shutil, subprocess, tempfile
 from concurrent.futures import ThreadPoolExecutor
 from vlib import *
 from checks import c14gen as G
+from checks import c14prec as P
 
 NAME = "C14"
 
@@ -275,12 +276,206 @@ def run(ctx):
                                "type inference of the generated input values (canonical decimal ints, plain words) is done by the harness"]
     ctx.assumptions = ["the generated LR parser is not modelled: only its observable AST/behaviour on generated programs",
                        "floats, arrays, function literals, higher-order functions, positional names, emitp/emitf/tee/dump, subroutines, redirects are outside the modelled fragment"]
+    with ctx.timed("gen_tables"):
+        levels = P.gen_precedence(REPO)
+    ctx.cov["precedence_levels_from_bnf"] = [[ops, a, k] for ops, a, k in levels]
     forbidden_gate(ctx, ["Base", "C14"])
-    ok, why = check_props(ctx, "C14/Props.v", ["C14/Harness.vo", "C14/Proofs.vo", "C14/StackProofs.vo"])
+    ok, why = check_props(ctx, "C14/Props.v", ["C14/Harness.vo", "C14/Proofs.vo", "C14/StackProofs.vo", "C14/PrecProofs.vo", "C14/InterpProofs.vo"])
+    bad, trees, block = P.behavioural_tie(ctx, 150 if ctx.tier == "quick" else 3000)
+    if bad:
+        ctx.violation(bad, found_input="expression" in bad)
     if not ok:
-        ctx.violation({"broken": why}, found_input=False)
+        # a proof obligation broke (e.g. the regenerated precedence table no longer equals the documented one): the
+        # behavioural tie above and the oracles below are the failing-input search
+        if not (bad and "expression" in bad):
+            w = precedence_witness(ctx, levels) if "Prec" in json.dumps(why) or "prec" in json.dumps(why) else None
+            if w:
+                ctx.violation(dict(w, broken=why))
+            else:
+                ctx.violation({"broken": why}, found_input=False)
     bits = probes(ctx)
+    stack_tie(ctx)
+    cells(ctx, bits)
     correspondence(ctx, bits)
+    oracles(ctx)
+
+
+def precedence_witness(ctx, levels):
+    """the regenerated chain differs from the documented table: look for an expression whose parse differs from the documented reading"""
+    for seed in range(5):
+        bad, trees, block = P.behavioural_tie(ctx, 600)
+        if bad and "expression" in bad:
+            return bad
+    return None
+
+
+# ------------------------------------------------------------------ stack operations: real runtime.Stack vs both Coq stack models
+TYPES = ["int", "num", "str", "bool", "map", "var", "any", "float", "arr", "funct"]
+
+
+def gen_stack_ops(rng, n):
+    ops, depth, sets = [], [1], 1
+    names = ["x", "y", "z"]
+
+    def val():
+        c = rng.randrange(6)
+        if c == 0:
+            return {"i": rng.randint(-3, 9)}
+        if c == 1:
+            return {"s": rng.choice(["", "a", "pan"])}
+        if c == 2:
+            return {"b": rng.random() < 0.5}
+        if c == 3:
+            return {"m": [["k", {"i": rng.randint(0, 3)}]]}
+        if c == 4:
+            return {"e": 1}
+        return {"i": 7}
+    for _ in range(n):
+        c = rng.randrange(14)
+        if c == 0:
+            ops.append(["pushframe"]); depth[-1] += 1
+        elif c == 1 and depth[-1] > 1:
+            ops.append(["popframe"]); depth[-1] -= 1
+        elif c == 2 and len(depth) < 4:
+            ops.append(["pushset"]); depth.append(1)
+        elif c == 3 and len(depth) > 1:
+            # balanced pops only: the interpreter never pops a frameset with extra frames on it, but the pool reset handles it
+            ops.append(["popset"]); depth.pop()
+        elif c in (4, 5):
+            ops.append(["define", rng.choice(names), rng.choice(TYPES), val()])
+        elif c in (6, 7, 8):
+            ops.append(["set", rng.choice(names), val()])
+        elif c == 9:
+            ops.append(["setatscope", rng.choice(names), val()])
+        elif c == 10:
+            ops.append(["unset", rng.choice(names)])
+        else:
+            ops.append(["get", rng.choice(names)])
+    for nme in names:
+        ops.append(["get", nme])
+    return ops
+
+
+def cq_sop(op):
+    k = op[0]
+    if k == "pushframe":
+        return "OpPushFrame"
+    if k == "popframe":
+        return "OpPopFrame"
+    if k == "pushset":
+        return "OpPushSet"
+    if k == "popset":
+        return "OpPopSet"
+    if k == "define":
+        return "(OpDefine %s %s %s)" % (coq_bytes(op[1].encode()), G.TY[op[2]], cq_val(conv_val(op[3])))
+    if k == "set":
+        return "(OpSet %s %s)" % (coq_bytes(op[1].encode()), cq_val(conv_val(op[2])))
+    if k == "setatscope":
+        return "(OpSetAtScope %s %s)" % (coq_bytes(op[1].encode()), cq_val(conv_val(op[2])))
+    if k == "unset":
+        return "(OpUnset %s)" % coq_bytes(op[1].encode())
+    return "(OpGet %s)" % coq_bytes(op[1].encode())
+
+
+def stack_tie(ctx):
+    n = 300 if ctx.tier == "quick" else 5000
+    seqs = [gen_stack_ops(ctx.rng, ctx.rng.randint(5, 40)) for _ in range(n)]
+    with ctx.timed("impl"):
+        rc, out, err = sh([ctx.implrun(), "c14-stack"], inp="".join(json.dumps(s) + "\n" for s in seqs), timeout=300)
+    lines = [l for l in out.split("\n") if l.strip()]
+    if rc != 0 or len(lines) != len(seqs):
+        ctx.violation({"broken": "stack-tie: implrun c14-stack failed", "rc": rc, "stderr": err[-1500:], "class": "panic" if "panic" in err else None},
+                      found_input=False)
+        return
+    terms = []
+    for s, l in zip(seqs, lines):
+        obs = json.loads(l)
+        cobs = []
+        for o in obs:
+            if o == "u":
+                cobs.append("ObsUnit")
+            elif o == "err":
+                cobs.append("ObsErr")
+            elif o is None:
+                cobs.append("(ObsVal None)")
+            else:
+                cobs.append("(ObsVal (Some %s))" % cq_val(conv_val(o)))
+        terms.append("(%s, %s)" % (coq_list(cq_sop(op) for op in s), coq_list(cobs)))
+        ctx.count(("stack", json.dumps(s)))
+    ctx.dist("stack_op_sequences", len(seqs))
+    with ctx.timed("coq_cases"):
+        bad, err = coq_eval_mismatches(ctx, "C14stack", "C14.Value C14.Stack C14.Model C14.Harness", "list sop * list sobs", "chk_stack", terms)
+    ctx.cov["stack_tie"] = {"sequences": len(seqs), "mismatches": len(bad)}
+    if err:
+        ctx.violation({"broken": "stack-tie evaluation", "detail": err[-1500:]}, found_input=False)
+    for i in bad[:3]:
+        if i >= 0:
+            ctx.violation({"broken": "stack-tie C14.Harness.chk_stack (runtime.Stack vs concrete and abstract stack models)",
+                           "ops": seqs[i], "observed": json.loads(lines[i])})
+
+
+# ------------------------------------------------------------------ operator cells: every (operator, kind, kind) through the same pipeline
+def cell_values():
+    err = ("bin", "+", ("int", 1), ("str", "a"))
+    return [("int", 3), ("int", -2), ("int", 0), ("bool", True), ("bool", False), ("str", ""), ("str", "abc"), ("str", "3"), ("str", "B"),
+            ("maplit", []), ("maplit", [(("str", "a"), ("int", 1))]), err, ("oos", "nosuch")]
+
+
+def cells(ctx, bits):
+    vals = cell_values()
+    cases = []
+
+    def prog_of(exprs):
+        body = [("emit1", ("maplit", [(("str", "r"), e)])) for e in exprs]
+        p = {"funcs": [], "begin": [], "main": [], "end": [body]}
+        return {"prog": p, "text": G.mlr_prog(p), "inputs": [], "quiet": False}
+    ismap = lambda v: v[0] == "maplit"
+    for op in ["+", "-", "*", ".", "==", "!=", "<", "<=", ">", ">="]:
+        # outside the modelled fragment: map.attribute access (map on the left of the dot), map-to-map comparison
+        cases.append(prog_of([("bin", op, a, b) for a in vals for b in vals
+                              if not (op == "." and ismap(a)) and not (op in G.CMP and ismap(a) and ismap(b))]))
+    cases.append(prog_of([("and", a, b) for a in vals for b in vals]))
+    cases.append(prog_of([("or", a, b) for a in vals for b in vals]))
+    cases.append(prog_of([("not", a) for a in vals] + [("neg", a) for a in vals] + [("coal", a, b) for a in vals for b in vals[:4]]
+                         + [("tern", a, ("int", 1), ("int", 2)) for a in vals] + [("index", a, b) for a in vals for b in vals if a[0] != "str" and not (a[0] == "int" and a[1] < 0)]))
+    # gate table: every declared type x every kind of value, inside a function so that a rejected assignment is an error VALUE
+    for ty in ["var", "int", "num", "str", "bool", "map", "float", "arr", "funct"]:
+        f = {"name": "fa", "params": [("any", "aa")], "ret": "any", "body": [("define", ty, "t", ("local", "aa")), ("return", ("str", "ok"))]}
+        body = [("emit1", ("maplit", [(("str", "r"), ("call", "fa", [v]))])) for v in vals if v != ("oos", "nosuch")]
+        p = {"funcs": [f], "begin": [], "main": [], "end": [body]}
+        cases.append({"prog": p, "text": G.mlr_prog(p), "inputs": [], "quiet": False})
+    with ctx.timed("impl"):
+        obs = run_all(ctx, cases, workers=4)
+    terms = [case_term(bits, c["prog"], c["quiet"], c["inputs"], o) for c, o in zip(cases, obs) if o["class"] in ("ok", "mlr_error")]
+    ncell = sum(len(c["prog"]["end"][0]) for c in cases)
+    ctx.dist("operator_and_gate_cells", ncell)
+    with ctx.timed("coq_cases"):
+        codes, err = coq_eval_codes(ctx, "C14cells", terms, shard=6)
+    ctx.cov["cells"] = {"programs": len(cases), "cells": ncell, "codes": {str(k): codes.count(k) for k in set(codes)}}
+    for c in cases:
+        for st in c["prog"]["end"][0]:
+            ctx.count(("cell", G.m_stmt(st, 0)))
+    if err:
+        ctx.violation({"broken": "cells evaluation", "detail": err[-1500:]}, found_input=False)
+    if len(terms) != len(cases):
+        ctx.violation({"broken": "cells: implementation did not run a cell program", "classes": [o["class"] for o in obs], "stderr": [o.get("stderr") for o in obs if o["class"] != "ok"][:2]}, found_input=False)
+    reported = 0
+    for c, code in zip(cases, codes):
+        if code != 0 and reported < 3:
+            # locate the first disagreeing cell by running the cells one at a time
+            single = []
+            for st in c["prog"]["end"][0]:
+                p = {"funcs": c["prog"]["funcs"], "begin": [], "main": [], "end": [[st]]}
+                single.append({"prog": p, "text": G.mlr_prog(p), "inputs": [], "quiet": False})
+            sobs = run_all(ctx, single, workers=4)
+            scodes, _ = coq_eval_codes(ctx, "C14cell1", [case_term(bits, x["prog"], False, [], o) for x, o in zip(single, sobs)], shard=200)
+            for x, o, sc in zip(single, sobs, scodes):
+                if sc != 0:
+                    reported += 1
+                    ctx.violation({"broken": "operator/gate cell: model and implementation differ (code %d)" % sc, "program": x["text"], "inputs": [],
+                                   "observed": {k: o.get(k) for k in ("class", "out", "stderr")}, "coq_case": case_term(bits, x["prog"], False, [], o)},
+                                  found_input=False)
+                    break
 
 
 def correspondence(ctx, bits):
@@ -323,6 +518,98 @@ def correspondence(ctx, bits):
             ctx.violation({"broken": "correspondence C14.Harness.classify", "program": c["text"], "inputs": c["inputs"], "quiet": c["quiet"],
                            "observed": {k: o.get(k) for k in ("class", "out", "stderr")}, "variant_bits": bits,
                            "coq_case": case_term(bits, c["prog"], c["quiet"], c["inputs"], o)})
+
+
+# ------------------------------------------------------------------ the property itself, evaluated on the implementation's outputs
+def I(n):
+    return ("int", n)
+
+
+def S(x):
+    return ("str", x)
+
+
+def oracle_table(rng):
+    """(clause, program, inputs, expected output stream) -- expectations written from the property statement / the reference
+    documents, independently of the Coq model.  Inputs are varied with the seed where the law is input-generic."""
+    k = rng.randint(2, 9)
+    w = rng.choice(["pan", "eks", "wye"])
+    rec = [("a", str(k)), ("b", w), ("c", "7")]
+    R = lambda *kv: ("r", list(kv))
+    t = []
+    t.append(("new-fields-append", '$z = 1; $new = $a . "x"', [rec], [R(("a", I(k)), ("b", S(w)), ("c", I(7)), ("z", I(1)), ("new", S("%dx" % k)))]))
+    t.append(("reassigned-keeps-position", '$a = "q"; $b = $c + 1', [rec], [R(("a", S("q")), ("b", I(8)), ("c", I(7)))]))
+    t.append(("absent-assignment-skipped", '$y = $nosuch; $a = @nosuch; @v = $nosuch; $n = is_absent(@v)', [rec],
+              [R(("a", I(k)), ("b", S(w)), ("c", I(7)), ("n", ("bool", True)))]))
+    t.append(("inner-var-shadows", 'x = 1; if (true) { var x = 2; $in = x } $out = x', [rec],
+              [R(("a", I(k)), ("b", S(w)), ("c", I(7)), ("in", I(2)), ("out", I(1)))]))
+    t.append(("undeclared-assignment-updates-enclosing", 'x = 1; if (true) { if (true) { x = %d } } $out = x' % k, [rec],
+              [R(("a", I(k)), ("b", S(w)), ("c", I(7)), ("out", I(k)))]))
+    t.append(("block-local-vanishes", 'if (true) { var y = 5 } $out = is_absent(y)', [rec], [R(("a", I(k)), ("b", S(w)), ("c", I(7)), ("out", ("bool", True)))]))
+    t.append(("shadow-in-recursion", 'func f(int n) { var r = n; if (n > 0) { var r = 100; t = f(n - 1) } return r } $out = f(3)', [rec],
+              [R(("a", I(k)), ("b", S(w)), ("c", I(7)), ("out", I(3)))]))
+    t.append(("by-value-arguments", 'func f(map m) { m["a"] = 99; m["zz"] = 1; return m["a"] } m = {"a": %d}; t = f(m); $inner = t; $outer = m["a"]; $n = length(m)' % k, [rec],
+              [R(("a", I(k)), ("b", S(w)), ("c", I(7)), ("inner", I(99)), ("outer", I(k)), ("n", I(1)))]))
+    t.append(("callee-sees-no-caller-locals", 'func f() { return is_absent(secret) } secret = 1; $out = f()', [rec],
+              [R(("a", I(k)), ("b", S(w)), ("c", I(7)), ("out", ("bool", True)))]))
+    t.append(("recursion", 'func fact(int n): int { if (n <= 1) { return 1 } return n * fact(n - 1) } $out = fact($a)', [rec],
+              [R(("a", I(k)), ("b", S(w)), ("c", I(7)), ("out", I(__import__("math").factorial(k))))]))
+    t.append(("oosvars-persist", '@count += 1; @last = $a; $n = @count', [[("a", "5")], [("a", "6")], [("a", "7")]],
+              [R(("a", I(5)), ("n", I(1))), R(("a", I(6)), ("n", I(2))), R(("a", I(7)), ("n", I(3)))]))
+    t.append(("locals-do-not-persist", '$seen = is_present(x); x = 5; $now = is_present(x)', [[("a", "5")], [("a", "6")]],
+              [R(("a", I(5)), ("seen", ("bool", False)), ("now", ("bool", True))), R(("a", I(6)), ("seen", ("bool", False)), ("now", ("bool", True)))]))
+    t.append(("type-gate-declaration", 'int x = "abc"', [rec], "error"))
+    t.append(("type-gate-later-assignment", 'str s = "a"; if (true) { s = 3 }', [rec], "error"))
+    t.append(("type-gate-parameter", 'func f(str s) { return 1 } $y = f(3)', [rec], "error"))
+    t.append(("type-gate-return", 'func f(): int { return "x" } $y = f()', [rec], "error"))
+    t.append(("type-gate-accepts", 'num x = 1; x = 2; var v = "s"; v = {}; map m = {}; m[1] = 2; $ok = x', [rec],
+              [R(("a", I(k)), ("b", S(w)), ("c", I(7)), ("ok", I(2)))]))
+    t.append(("break-continue", 'for (k, v in $*) { if (k == "b") { continue } if (k == "c") { break } print k } i = 0; while (true) { i += 1; if (i > 3) { break } } print i', [rec],
+              [("s", "a"), ("s", "4"), R(("a", I(k)), ("b", S(w)), ("c", I(7)))]))
+    t.append(("loop-over-record-copy", 'for (k, v in $*) { $[k . "_2"] = v; unset $c }', [rec], [R(("a", I(k)), ("b", S(w)), ("a_2", I(k)), ("b_2", S(w)), ("c_2", I(7)))]))
+    t.append(("pattern-action-begin-end", 'begin { @n = 0 } $a > 0 { @n += 1 } end { emit @n }', [[("a", "1")], [("a", "-1")], [("a", "2")]],
+              [R(("a", I(1))), R(("a", I(-1))), R(("a", I(2))), R(("n", I(2)))]))
+    t.append(("auto-create-nested", '@s[$b][1] = $a; end { emit1 @s }', [rec], [R(("a", I(k)), ("b", S(w)), ("c", I(7))), R((w, ("map", [("1", I(k))])))]))
+    t.append(("emit-by-names-is-grouping", '@sum[$a][$b] = $c; end { emit @sum, "a", "b" }', [[("a", "x"), ("b", "p"), ("c", "1")], [("a", "y"), ("b", "p"), ("c", "2")], [("a", "x"), ("b", "q"), ("c", "3")]],
+              None))
+    return t
+
+
+def oracles(ctx):
+    table = oracle_table(ctx.rng)
+    cases = [{"text": prog + "\n", "inputs": ins, "quiet": name in ("emit-by-names-is-grouping",)} for name, prog, ins, exp in table]
+    with ctx.timed("impl"):
+        obs = run_all(ctx, cases, workers=4)
+    res = {}
+    for (name, prog, ins, exp), o in zip(table, obs):
+        ctx.count(("oracle", name, prog))
+        if name == "emit-by-names-is-grouping":
+            exp = [("r", [("a", S("x")), ("b", S("p")), ("sum", I(1))]), ("r", [("a", S("x")), ("b", S("q")), ("sum", I(3))]),
+                   ("r", [("a", S("y")), ("b", S("p")), ("sum", I(2))])]
+        good = (o["class"] == "mlr_error") if exp == "error" else (o["class"] == "ok" and o.get("out") == exp)
+        res[name] = bool(good)
+        if not good:
+            ctx.violation({"broken": "property oracle: " + name, "program": "mlr put '%s'" % prog, "input": ins, "observed": {k: o.get(k) for k in ("class", "out", "stderr")},
+                           "expected": exp, "class": "oracle-" + name})
+    # two end-to-end runs through the command line: oosvars are private to each put in a chain; emit-by-names = the grouping verb
+    inp = [[("a", ctx.rng.choice("xyz")), ("b", ctx.rng.choice("pq")), ("n", str(ctx.rng.randint(1, 9)))] for _ in range(12)]
+    with ctx.timed("impl"):
+        st1, out1, err1 = mlr_run(ctx, ["--ojsonl", "put", "-q", '@sum[$a][$b] += $n; end { emit @sum, "a", "b" }'], dkvp(inp), timeout=120)
+        st2, out2, err2 = mlr_run(ctx, ["--ojsonl", "stats1", "-a", "sum", "-f", "n", "-g", "a,b", "then", "rename", "n_sum,sum"], dkvp(inp), timeout=120)
+        st3, out3, err3 = mlr_run(ctx, ["--ojsonl", "put", "-q", "@c = 1; @d[$a] = 2", "then", "put", "$seen = is_present(@c) || is_present(@d)"], dkvp(inp[:2]), timeout=120)
+    ctx.count(("oracle-cli", "emit-vs-stats1", str(inp)))
+    ctx.count(("oracle-cli", "oosvars-private"))
+    # stats1 groups by first appearance of the (a,b) pair, emit by first appearance of a then of b within a: compare as sorted lists
+    l1, l2 = sorted(out1.decode().splitlines()), sorted(out2.decode().splitlines())
+    res["cli-emit-by-names-equals-stats1"] = (st1 == 0 and st2 == 0 and l1 == l2 and len(l1) > 0)
+    if not res["cli-emit-by-names-equals-stats1"]:
+        ctx.violation({"broken": "property oracle: emit-by-names vs grouping verb", "input": inp, "emit": l1, "stats1": l2, "class": "oracle-emit-vs-stats1"})
+    res["cli-oosvars-private"] = (st3 == 0 and out3 == b"")
+    st4, out4, err4 = mlr_run(ctx, ["--ojsonl", "put", "@c = 1", "then", "put", "$seen = is_present(@c)"], dkvp(inp[:1]), timeout=120)
+    res["cli-oosvars-private"] = st4 == 0 and b'"seen": false' in out4
+    if not res["cli-oosvars-private"]:
+        ctx.violation({"broken": "property oracle: out-of-stream variables are private to each put", "observed": out4.decode()[-300:], "class": "oracle-oosvars-private"})
+    ctx.cov["oracles"] = res
 
 
 def replay(ctx, path):
